@@ -493,8 +493,12 @@ def scenario(s, spec):
             tag = "%s.%d" % (name, i)
             rec = {"caller": name, "kind": kind, "remote": proxy is not lp, "result": None, "done": False, "future": None}
             obs["calls"][tag] = rec
-            meth = "ok" if kind in ("badarg", "badload_arg") else ("badload" if kind == "badload_res" else kind)
+            meth = "ok" if kind in ("badarg", "badload_arg", "huge", "big") else ("badload" if kind == "badload_res" else kind)
             payload = real_threading.Lock() if kind == "badarg" else (BadLoad(i) if kind == "badload_arg" else None)
+            if kind == "huge":
+                payload = bytes(1200000)      # a request above 1 MB: many recv() rounds, still one message in its place
+            elif kind == "big":
+                payload = bytes(5000)         # does not fit one recv() of the connection
             CUR_TAG[real_threading.get_ident()] = tag
             if kind == "islocked":
                 finish(rec, proxy.is_locked)
